@@ -379,7 +379,7 @@ func GetAcsUrlAndBindingForResponse(
 			index := 0
 			for _, acs := range acs {
 				i, _ := strconv.Atoi(acs.Index)
-				if index == 0 || i < index {
+				if acsUrl == "" || i < index {
 					acsUrl = acs.Location
 					protocolBinding = acs.Binding
 					index = i
